@@ -104,6 +104,9 @@ def api_names():
         hashes = {}          # the selected backend has no registered Poseidon parameters (snarkjs, qaptools)
     def set_bitlength(n):
         rt.bitlength = n
+        from vf import boot
+        if boot.Neutral.current is not None and boot.Neutral.current.expect is not None:
+            boot.Neutral.current.expect = (n, boot.Neutral.current.expect[1])      # the program's own, legitimate change
     import functools
     return dict(snark=rt.snark, set_bitlength=set_bitlength, _loop_sum=_loop_sum, _aug=model._aug, functools=functools, _Call=_Call, if_guard=rt.if_guard, igprint=rt.igprint, **hashes, PackBool=pk.PackBool, PackIntMod=pk.PackIntMod, PackList=pk.PackList, PackRepeat=pk.PackRepeat,
                 PrivVal=rt.PrivVal, PubVal=rt.PubVal, ConstVal=rt.ConstVal, LinComb=rt.LinComb,
